@@ -223,6 +223,7 @@ Init == /\ \E g \in Graphs : n = g[1] /\ E = g[2]
               /\ inf \in SUBSET (1..n) /\ rec \in SUBSET (1..n)
               /\ Cardinality(inf) <= MaxInf /\ Cardinality(rec) <= MaxRec
            \/ /\ mode = "rho" /\ rho \in RhoSet /\ inf = {} /\ rec = {}
+              /\ n <= 7        \* the brute-force expectation ranges over all 2^n infected sets (and b^n must stay below 2^31)
         /\ InFamily
         /\ phase = "chosen"
 
